@@ -984,6 +984,10 @@ impl Translator {
                         self.translate_expr(array, offset_table, mono, st);
                         self.translate_expr(index, offset_table, mono, st);
                         self.emit(st, Instr::GetIndex(Reg::Top, Reg::Top));
+                        // arrays of void use dummy values
+                        if self.get_ty(mono, expr.node()).unwrap() == SolvedType::Void {
+                            self.emit(st, Instr::Pop);
+                        }
                     }
                     _ => {
                         // interface method Index::index_get()
@@ -1807,8 +1811,24 @@ impl Translator {
             }
             IntrinsicOperation::ArrayGet => {
                 self.emit(st, Instr::GetIndex(Reg::Top, Reg::Top));
+                let SolvedType::Function(_, ret_ty) = self.get_ty(mono, func_node.clone()).unwrap()
+                else {
+                    unreachable!()
+                };
+                // arrays of void use dummy values
+                if *ret_ty == SolvedType::Void {
+                    self.emit(st, Instr::Pop);
+                }
             }
             IntrinsicOperation::ArraySet => {
+                let Some(SolvedType::Function(args, _)) = self.get_ty(mono, func_node.clone())
+                else {
+                    unreachable!()
+                };
+                // third arg is the element being stored; arrays of void use dummy values
+                if args[2] == SolvedType::Void {
+                    self.emit(st, Instr::PushNil(1));
+                }
                 self.emit(st, Instr::SetIndex(Reg::Top, Reg::Top));
             }
             IntrinsicOperation::ArrayPush => {
@@ -2485,6 +2505,10 @@ impl Translator {
                 self.emit(st, Instr::PushInt(0 as AbraInt));
                 self.emit(st, Instr::EqualInt(Reg::Top, Reg::Top, Reg::Top));
                 self.emit(st, Instr::JumpIfFalse(end_label_iter.clone()));
+                // a variant payload always occupies a slot, but a void item binds nothing
+                if self.get_ty(mono, pat.node()).unwrap() == SolvedType::Void {
+                    self.emit(st, Instr::Pop);
+                }
                 let mut or_pat_decisions = HashSet::default();
                 self.handle_pat_binding(pat, offset_table, st, mono, &mut or_pat_decisions);
                 st.loop_stack.push(EnclosingLoop {
